@@ -360,10 +360,19 @@ func (c *Check) callbackRules(prefix string) {
 					}
 				}
 			}
-			_, mod := hasFact(pa.AllFacts(), "(nonempty (.RequestContext.ModuleName "+ctxP+"))", false)
+			modT := parseTerm("(nonempty (.RequestContext.ModuleName " + ctxP + "))")
+			af := pa.AllFacts()
+			_, mod := hasFact(af, modT.String(), false)
+			mod = mod || af.Holds(modT, true)
 			want := 0
 			if mod {
 				want = 1
+			} else if !af.Holds(modT, false) {
+				// the path is open to a context with an owning module (a further condition sits beside the module test):
+				// a module context completing its batch here is not called back, or a context without a module is
+				c.fail(prefix+".callback.once", unitConstruct(cf, "callbacks:module=undetermined"), pa.RetPos,
+					fmt.Sprintf("a path that completes a batch neither establishes nor excludes an owning module and dispatches the callback %d time(s): the callback must depend on the owning module alone (once per batch, issued or skipped)", n))
+				continue
 			}
 			c.req(n == want, prefix+".callback.once", unitConstruct(cf, fmt.Sprintf("callbacks:module=%v", mod)), pa.RetPos, fmt.Sprintf("completing a batch dispatches the callback %d time(s) (module context=%v)", n, mod))
 		}
